@@ -45,6 +45,10 @@ def battery(conts):
     ops.append({"op": "eqc", "other": [{"tag": "1", "k": "f", "val": "a", "items": []}, {"tag": "2", "k": "f", "val": "b", "items": []}]})
     ops.append({"op": "eqd", "pairs": "SELF"})
     ops.append({"op": "eqd", "pairs": "SELF+FRAMING"})
+    ops.append({"op": "eqd", "pairs": "SELF+FRAMING", "keys": "int"})
+    ops.append({"op": "eqd", "pairs": "SELF", "keys": "int"})
+    ops.append({"op": "eqd", "pairs": "SELF+FRAMING", "keys": "enum"})
+    ops.append({"op": "eqd", "pairs": [["1", "a"], ["35", "D"], ["9", "12"]], "keys": "int"})
     ops.append({"op": "eqd", "pairs": [["1", "a"]]})
     ops.append({"op": "eqd", "pairs": [["1", "a"], ["2", "b"]]})
     ops.append({"op": "eqd", "pairs": [["1", "a"], ["8", "FIX.4.4"], ["35", "D"]]})
@@ -126,7 +130,9 @@ def execute(tr):
                     if o["pairs"] == "SELF+FRAMING":
                         pr += [["8", "FIX.4.4"], ["10", "000"]]
                     o["pairs"] = pr
-                o["res"] = "true" if (m == {p[0]: p[1] for p in o["pairs"]}) else "false"
+                kt = o.pop("keys", "str")
+                keyf = {"str": str, "int": int, "enum": lambda t: FTag(t)}[kt]
+                o["res"] = "true" if (m == {keyf(p[0]): p[1] for p in o["pairs"]}) else "false"
             elif k == "pickle":
                 m2 = pickle.loads(pickle.dumps(m))
                 o["res"] = "true" if (m2 == m and project(m2) == project(m) and m2.msg_type == m.msg_type) else "false"
@@ -183,7 +189,8 @@ def random_trace(rng, tid):
         elif x < 0.9:
             ops.append(rng.choice([{"op": "glist", "tag": t}, {"op": "gindex", "tag": t, "index": rng.randint(0, 3)}, {"op": "contains", "tag": t, "sp": "str"}]))
         else:
-            ops.append(rng.choice([{"op": "pickle"}, {"op": "eqc", "other": "SELF"}, {"op": "eqd", "pairs": "SELF+FRAMING"}]))
+            ops.append(rng.choice([{"op": "pickle"}, {"op": "eqc", "other": "SELF"}, {"op": "eqd", "pairs": "SELF+FRAMING"},
+                                   {"op": "eqd", "pairs": "SELF+FRAMING", "keys": "int"}]))
     return {"id": tid, "ops": ops}
 
 
